@@ -2,11 +2,12 @@ import Thm.ProcSimBase
 /-!
 Procedures layer, simulation part — `READ` (port of `Thm.C01SimRead.case_read`).
 
-Generated shape: `BeginCollectArguments`; per variable `VarPathName x; CopyVarPathToA; PushUnnamedByRef`; `PushStack`
-(the collected values become the frame of the built-in's activation); `BuiltInSub Read` (every variable of that frame
-receives the next DATA item converted to the type of the value it holds — the declared type, because the environment is
-`Typed`); per variable `EnqueueToReturnStack i`; `PopStack`; per variable `DequeueFromReturnStack; VarPathName x;
-CopyAToVarPath`.
+`READ a, b` is generated as `READ a : READ b`: one call of the built-in per variable —
+`BeginCollectArguments; VarPathName x; CopyVarPathToA; PushUnnamedByRef; PushStack` (the collected value becomes the
+frame of the built-in's activation); `BuiltInSub Read` (the variable of that frame receives the next DATA item converted
+to the type of the value it holds — the declared type, because the environment is `Typed`); `EnqueueToReturnStack 0;
+PopStack; DequeueFromReturnStack; VarPathName x; CopyAToVarPath`.  So every variable is assigned before the next DATA
+item is converted: the `readSeq` of the reference semantics, round by round.
 -/
 set_option linter.unusedVariables false
 set_option linter.unusedSimpArgs false
@@ -15,244 +16,180 @@ namespace RbThm.ProcSim.SimRead
 open RbModel RbModel.Num RbModel.Proc RbModel.Proc.Compile RbModel.Proc.Vm
 open RbModel.Ast (Pos)
 open RbThm.ProcLen
-open RbThm.C01Sim.SimRead (setAll setAll_length cast_tag typed_set typed_getD_tag)
+open RbThm.C01Sim.SimRead (cast_tag typed_set typed_getD_tag)
 
-/-! ### the three loops of the generated code -/
-
-/-- `VarPathName x; CopyVarPathToA; PushUnnamedByRef` per variable -/
-def pushCode (vars : List (Nat × Ty × Pos)) : Code :=
-  vars.flatMap (fun v => [(CInstr.varPath v.1 v.2.1, v.2.2), (CInstr.copyVarPathToA, v.2.2), (CInstr.pushByRef, v.2.2)])
-
-/-- `EnqueueToReturnStack i` per variable -/
-def enqCode (k : Nat) (vars : List (Nat × Ty × Pos)) : Code :=
-  (vars.zipIdx k).map (fun vi => (CInstr.enqueue vi.2, vi.1.2.2))
-
-/-- `DequeueFromReturnStack; VarPathName x; CopyAToVarPath` per variable -/
-def deqCode (vars : List (Nat × Ty × Pos)) : Code :=
-  vars.flatMap (fun v => [(CInstr.dequeue, v.2.2), (CInstr.varPath v.1 v.2.1, v.2.2), (CInstr.copyAToVarPath, v.2.2)])
+/-- the code of one single-variable READ -/
+def readBlock (p : Pos) (v : Nat × Ty × Pos) : Code :=
+  [(CInstr.beginArgs, p), (CInstr.varPath v.1 v.2.1, v.2.2), (CInstr.copyVarPathToA, v.2.2), (CInstr.pushByRef, v.2.2),
+   (CInstr.pushStack, p), (CInstr.builtInRead, p), (CInstr.enqueue 0, v.2.2), (CInstr.popStack, p),
+   (CInstr.dequeue, v.2.2), (CInstr.varPath v.1 v.2.1, v.2.2), (CInstr.copyAToVarPath, v.2.2)]
 
 theorem compile_read (lay : List Nat) (sfx : String) (fd sd off : Nat) (vars : List (Nat × Ty × Pos)) (p : Pos) :
     compileStmt lay sfx fd sd off (.read vars p) =
-      [(CInstr.beginArgs, p)] ++ pushCode vars ++ [(CInstr.pushStack, p), (CInstr.builtInRead, p)] ++ enqCode 0 vars ++
-        [(CInstr.popStack, p)] ++ deqCode vars := by
-  simp only [compileStmt, pushCode, enqCode, deqCode]
+      if vars.isEmpty then
+        [(CInstr.beginArgs, p), (CInstr.pushStack, p), (CInstr.builtInRead, p), (CInstr.popStack, p)]
+      else vars.flatMap (readBlock p) := by
+  simp only [compileStmt]
+  rfl
 
-theorem len_pushCode (vars : List (Nat × Ty × Pos)) : (pushCode vars).length = 3 * vars.length :=
-  flatMap_const_len _ 3 (fun _ => rfl) vars
+theorem len_readBlocks (p : Pos) (vars : List (Nat × Ty × Pos)) : (vars.flatMap (readBlock p)).length = 11 * vars.length :=
+  flatMap_const_len _ 11 (fun _ => rfl) vars
 
-theorem len_deqCode (vars : List (Nat × Ty × Pos)) : (deqCode vars).length = 3 * vars.length :=
-  flatMap_const_len _ 3 (fun _ => rfl) vars
+/-- **one single-variable READ** -/
+theorem one_read (code : Code) (P : Program) (f : Nat) (x : Nat) (t : Ty) (q p : Pos) (sc : Scope) (fd sd off : Nat)
+    (below : List CtxState) (s : St) (σ : Vm)
+    (hc : CodeAt code off (readBlock p (x, t, q))) (hpc : σ.pc = off) (hr : Rel sc [] below s σ)
+    (hx : sc.slots[x]? = some t) :
+    StmtPost code sc below fd sd 11 off σ (Proc.Ref.exec P (f + 1) (.read x t p) s) := by
+  subst hpc
+  simp only [readBlock] at hc
+  obtain ⟨fr, hctx, hfr⟩ := hr.ctx
+  have hctx : σ.ctx = .frame fr :: below := hctx
+  have h0 : code[σ.pc]? = some (CInstr.beginArgs, p) := hc.head
+  have h1 : code[σ.pc + 1]? = some (CInstr.varPath x t, q) := hc.tail.head
+  have h2 : code[σ.pc + 1 + 1]? = some (CInstr.copyVarPathToA, q) := hc.tail.tail.head
+  have h3 : code[σ.pc + 1 + 1 + 1]? = some (CInstr.pushByRef, q) := hc.tail.tail.tail.head
+  have h4 : code[σ.pc + 1 + 1 + 1 + 1]? = some (CInstr.pushStack, p) := hc.tail.tail.tail.tail.head
+  have h5 : code[σ.pc + 1 + 1 + 1 + 1 + 1]? = some (CInstr.builtInRead, p) := hc.tail.tail.tail.tail.tail.head
+  have h6 : code[σ.pc + 1 + 1 + 1 + 1 + 1 + 1]? = some (CInstr.enqueue 0, q) := hc.tail.tail.tail.tail.tail.tail.head
+  have h7 : code[σ.pc + 1 + 1 + 1 + 1 + 1 + 1 + 1]? = some (CInstr.popStack, p) :=
+    hc.tail.tail.tail.tail.tail.tail.tail.head
+  have h8 : code[σ.pc + 1 + 1 + 1 + 1 + 1 + 1 + 1 + 1]? = some (CInstr.dequeue, q) :=
+    hc.tail.tail.tail.tail.tail.tail.tail.tail.head
+  have h9 : code[σ.pc + 1 + 1 + 1 + 1 + 1 + 1 + 1 + 1 + 1]? = some (CInstr.varPath x t, q) :=
+    hc.tail.tail.tail.tail.tail.tail.tail.tail.tail.head
+  have h10 : code[σ.pc + 1 + 1 + 1 + 1 + 1 + 1 + 1 + 1 + 1 + 1]? = some (CInstr.copyAToVarPath, q) :=
+    hc.tail.tail.tail.tail.tail.tail.tail.tail.tail.tail.head
+  -- the value the variable holds has the declared type
+  let v0 : Val := getVar fr x t
+  have htag : v0.tag = t := by
+    show (getVar fr x t).tag = t
+    rw [hfr.get x t hx]; exact typed_getD_tag hr.typed hx _
+  -- the call with its one argument
+  let σ1 : Vm := Vm.advance { σ with ctx := .args [] :: .frame fr :: below }
+  let σ2 : Vm := Vm.advance { σ1 with paths := (x, t) :: σ1.paths }
+  let σ3 : Vm := Vm.advance (Vm.setA σ2 v0)
+  let σ4 : Vm := Vm.advance { σ3 with paths := σ.paths, ctx := .args [v0] :: .frame fr :: below }
+  let σ5 : Vm := Vm.advance { σ4 with ctx := .frame [some v0] :: .frame fr :: below, trace := p :: σ.trace }
+  have s1 : Vm.step code σ = .next σ1 := by simp only [Vm.step, h0, hctx]; rfl
+  have s2 : Vm.step code σ1 = .next σ2 := by
+    have h1' : code[σ1.pc]? = some (CInstr.varPath x t, q) := h1
+    simp only [Vm.step, h1']; rfl
+  have s3 : Vm.step code σ2 = .next σ3 := by
+    have h2' : code[σ2.pc]? = some (CInstr.copyVarPathToA, q) := h2
+    have hp2 : σ2.paths = (x, t) :: σ.paths := rfl
+    have hcv : curVars σ2.ctx = some fr := rfl
+    simp only [Vm.step, h2', hp2, hcv]; rfl
+  have s4 : Vm.step code σ3 = .next σ4 := by
+    have h3' : code[σ3.pc]? = some (CInstr.pushByRef, q) := h3
+    have hp3 : σ3.paths = (x, t) :: σ.paths := rfl
+    simp only [Vm.step, h3', hp3, pushArg]; rfl
+  have s5 : Vm.step code σ4 = .next σ5 := by
+    have h4' : code[σ4.pc]? = some (CInstr.pushStack, p) := h4
+    have hc4 : σ4.ctx = .args [v0] :: .frame fr :: below := rfl
+    simp only [Vm.step, h4', hc4]; rfl
+  have pre : Steps code σ σ5 := Steps.cons s1 (Steps.cons s2 (Steps.cons s3 (Steps.cons s4 (Steps.one s5))))
+  have hread : Vm.step code σ5 =
+      match readVars [v0] s.data s.dataIdx with
+      | .inr () => .error _root_.RbModel.Ref.codeOutOfData p σ5
+      | .inl (.error e) => .error (Vm.codeOf e) p σ5
+      | .inl (.ok (vs', idx')) =>
+        .next (Vm.advance { σ5 with ctx := .frame (vs'.map some) :: .frame fr :: below, dataIdx := idx' }) := by
+    have h5' : code[σ5.pc]? = some (CInstr.builtInRead, p) := h5
+    have hc5 : σ5.ctx = .frame [some v0] :: .frame fr :: below := rfl
+    have hm : ([some v0] : Frame).mapM id = some [v0] := rfl
+    have e : readVars [v0] σ5.data σ5.dataIdx = readVars [v0] s.data s.dataIdx := by
+      have e2 : σ5.data = s.data := hr.data
+      have e3 : σ5.dataIdx = s.dataIdx := hr.dataIdx
+      rw [e2, e3]
+    simp only [Vm.step, h5', hc5, hm]
+    rw [e]; rfl
+  simp only [Proc.Ref.exec]
+  cases hd : s.data[s.dataIdx]? with
+  | none =>
+    simp only [StmtPost]
+    refine ⟨σ5, σ5, pre, ?_, hr.out⟩
+    rw [hread]; simp only [readVars, hd]; rfl
+  | some v =>
+    simp only
+    cases hcst : Num.cast v t with
+    | inexact => simp only [StmtPost]
+    | err e =>
+      simp only [StmtPost]
+      refine ⟨σ5, σ5, pre, ?_, hr.out⟩
+      rw [hread]; simp only [readVars, hd, htag, hcst]
+    | ok w =>
+      simp only [StmtPost]
+      let σ6 : Vm := Vm.advance { σ5 with ctx := .frame [some w] :: .frame fr :: below, dataIdx := s.dataIdx + 1 }
+      let σ7 : Vm := Vm.advance { σ6 with queue := σ6.queue ++ [w] }
+      let σ8 : Vm := Vm.advance { σ7 with ctx := .frame fr :: below, trace := σ.trace }
+      let σ9 : Vm := Vm.advance { Vm.setA σ8 w with queue := [] }
+      let σ10 : Vm := Vm.advance { σ9 with paths := (x, t) :: σ9.paths }
+      let σ11 : Vm := Vm.advance { σ10 with ctx := .frame (setVar fr x w) :: below, paths := σ.paths }
+      have s6 : Vm.step code σ5 = .next σ6 := by
+        rw [hread]; simp only [readVars, hd, htag, hcst]; rfl
+      have s7 : Vm.step code σ6 = .next σ7 := by
+        have h6' : code[σ6.pc]? = some (CInstr.enqueue 0, q) := h6
+        have hcv : curVars σ6.ctx = some [some w] := rfl
+        have hw0 : ([some w] : Frame)[0]? = some (some w) := rfl
+        simp only [Vm.step, h6', hcv, hw0]; rfl
+      have s8 : Vm.step code σ7 = .next σ8 := by
+        have h7' : code[σ7.pc]? = some (CInstr.popStack, p) := h7
+        have hc7 : σ7.ctx = .frame [some w] :: .frame fr :: below := rfl
+        have ht7 : σ7.trace = p :: σ.trace := rfl
+        simp only [Vm.step, h7', hc7, ht7]; rfl
+      have s9 : Vm.step code σ8 = .next σ9 := by
+        have h8' : code[σ8.pc]? = some (CInstr.dequeue, q) := h8
+        have hq8 : σ8.queue = [w] := by show σ.queue ++ [w] = [w]; rw [hr.queue]; rfl
+        simp only [Vm.step, h8', hq8]; rfl
+      have s10 : Vm.step code σ9 = .next σ10 := by
+        have h9' : code[σ9.pc]? = some (CInstr.varPath x t, q) := h9
+        simp only [Vm.step, h9']; rfl
+      have s11 : Vm.step code σ10 = .next σ11 := by
+        have h10' : code[σ10.pc]? = some (CInstr.copyAToVarPath, q) := h10
+        have hp10 : σ10.paths = (x, t) :: σ.paths := rfl
+        have hc10 : σ10.ctx = .frame fr :: below := rfl
+        have ha10 : σ10.regs.a = w := rfl
+        simp only [Vm.step, h10', hp10, hc10, ha10, modCur]; rfl
+      refine ⟨σ11, pre.trans (Steps.cons s6 (Steps.cons s7 (Steps.cons s8 (Steps.cons s9
+        (Steps.cons s10 (Steps.one s11)))))), rfl, ?_, ⟨rfl, rfl, rfl, rfl, rfl, rfl, id⟩⟩
+      exact ⟨hr.coll, ⟨setVar fr x w, rfl, hfr.set hx hr.typed.1 w⟩,
+        typed_set hr.typed hx (cast_tag v t w hcst), hr.out, hr.data,
+        (by show s.dataIdx + 1 = s.dataIdx + 1; rfl), rfl, hr.funRes⟩
 
-theorem len_enqCode (k : Nat) (vars : List (Nat × Ty × Pos)) : (enqCode k vars).length = vars.length := by
-  simp only [enqCode, List.length_map, List.length_zipIdx]
-
-def pushedSt (σ : Vm) (pc : Nat) (a : Val) (ctx : List CtxState) : Vm :=
-  { σ with pc := pc, regs := { σ.regs with a := a }, ctx := ctx }
-
-/-- collecting the by-reference arguments: the current value of every variable (read in the frame below the collecting
-state) is appended to the collected values -/
-theorem push_phase (code : Code) : ∀ (vars : List (Nat × Ty × Pos)) (off : Nat) (σ : Vm) (vs0 : List Val) (fr : Frame)
-    (rest : List CtxState),
-    CodeAt code off (pushCode vars) → σ.pc = off → σ.ctx = .args vs0 :: .frame fr :: rest →
-    ∃ a, Steps code σ (pushedSt σ (off + 3 * vars.length) a
-      (.args (vs0 ++ vars.map (fun v => getVar fr v.1 v.2.1)) :: .frame fr :: rest))
-  | [], off, σ, vs0, fr, rest, _, hpc, hctx => by
-    subst hpc
-    refine ⟨σ.regs.a, (Steps.refl σ).cast ?_⟩
-    simp only [List.map_nil, List.append_nil, ← hctx]
-    rfl
-  | (x, t, q) :: vars, off, σ, vs0, fr, rest, hc, hpc, hctx => by
-    subst hpc
-    simp only [pushCode, List.flatMap_cons] at hc
-    have h0 : code[σ.pc]? = some (CInstr.varPath x t, q) := hc.append_left.head
-    have h1 : code[σ.pc + 1]? = some (CInstr.copyVarPathToA, q) := hc.append_left.tail.head
-    have h2 : code[σ.pc + 1 + 1]? = some (CInstr.pushByRef, q) := hc.append_left.tail.tail.head
-    have hcv : curVars σ.ctx = some fr := by rw [hctx]; rfl
-    let σ1 : Vm := Vm.advance { σ with paths := (x, t) :: σ.paths }
-    let σ2 : Vm := Vm.advance (Vm.setA σ1 (getVar fr x t))
-    let σ3 : Vm := Vm.advance { σ2 with paths := σ.paths, ctx := .args (vs0 ++ [getVar fr x t]) :: .frame fr :: rest }
-    have s1 : Vm.step code σ = .next σ1 := by simp only [Vm.step, h0]; rfl
-    have s2 : Vm.step code σ1 = .next σ2 := by simp only [Vm.step, σ1, Vm.advance, h1, hcv]; rfl
-    have s3 : Vm.step code σ2 = .next σ3 := by
-      simp only [Vm.step, σ2, σ1, Vm.advance, Vm.setA, h2, pushArg, hctx]; rfl
-    have hcr : CodeAt code (σ.pc + 3) (pushCode vars) := hc.append_right
-    obtain ⟨a, st⟩ := push_phase code vars (σ.pc + 3) σ3 (vs0 ++ [getVar fr x t]) fr rest hcr rfl rfl
-    have e1 : σ.pc + 3 + 3 * vars.length = σ.pc + 3 * ((x, t, q) :: vars).length := by
-      simp only [List.length_cons]; omega
-    have e2 : vs0 ++ [getVar fr x t] ++ vars.map (fun v => getVar fr v.1 v.2.1) =
-        vs0 ++ ((x, t, q) :: vars).map (fun v => getVar fr v.1 v.2.1) := by
-      simp only [List.map_cons, List.append_assoc, List.singleton_append]
-    rw [e1, e2] at st
-    exact ⟨a, (Steps.cons s1 (Steps.cons s2 (Steps.one s3))).trans st⟩
-
-def enqSt (σ : Vm) (pc : Nat) (queue : List Val) : Vm := { σ with pc := pc, queue := queue }
-
-/-- the converted values (the variables of the built-in's frame) are put into the by-reference return queue, in order -/
-theorem enq_phase (code : Code) : ∀ (vars : List (Nat × Ty × Pos)) (k off : Nat) (σ : Vm) (ws : List Val)
-    (rest : List CtxState),
-    CodeAt code off (enqCode k vars) → σ.pc = off → σ.ctx = .frame (ws.map some) :: rest →
-    k + vars.length ≤ ws.length →
-    Steps code σ (enqSt σ (off + vars.length) (σ.queue ++ (ws.drop k).take vars.length))
-  | [], k, off, σ, ws, rest, _, hpc, _, _ => by
-    subst hpc
-    refine (Steps.refl σ).cast ?_
-    simp only [enqSt, List.length_nil, Nat.add_zero, List.take_zero, List.append_nil]
-  | v :: vars, k, off, σ, ws, rest, hc, hpc, hctx, hlen => by
-    subst hpc
-    simp only [enqCode, List.zipIdx_cons, List.map_cons] at hc
-    have h0 : code[σ.pc]? = some (CInstr.enqueue k, v.2.2) := hc.head
-    have hk : k < ws.length := by simp only [List.length_cons] at hlen; omega
-    have hcv : curVars σ.ctx = some (ws.map some) := by rw [hctx]; rfl
-    have hwk : (ws.map some)[k]? = some (some ws[k]) := by
-      rw [List.getElem?_map, List.getElem?_eq_getElem hk]; rfl
-    let σ1 : Vm := Vm.advance { σ with queue := σ.queue ++ [ws[k]] }
-    have s1 : Vm.step code σ = .next σ1 := by simp only [Vm.step, h0, hcv, hwk]; rfl
-    have hcr : CodeAt code (σ.pc + 1) (enqCode (k + 1) vars) := hc.tail
-    have st := enq_phase code vars (k + 1) (σ.pc + 1) σ1 ws rest hcr rfl hctx
-      (by simp only [List.length_cons] at hlen; omega)
-    have e1 : σ.pc + 1 + vars.length = σ.pc + (v :: vars).length := by simp only [List.length_cons]; omega
-    have e2 : σ1.queue ++ (ws.drop (k + 1)).take vars.length = σ.queue ++ (ws.drop k).take (v :: vars).length := by
-      show σ.queue ++ [ws[k]] ++ (ws.drop (k + 1)).take vars.length = _
-      rw [List.drop_eq_getElem_cons hk]
-      simp only [List.length_cons, List.take_succ_cons, List.append_assoc, List.singleton_append]
-    rw [e1, e2] at st
-    exact Steps.cons s1 st
-
-/-- the variables of a frame assigned one after the other -/
-def setAllFr : Frame → List (Nat × Ty × Pos) → List Val → Frame
-  | fr, v :: vs, w :: ws => setAllFr (setVar fr v.1 w) vs ws
-  | fr, _, _ => fr
-
-def deqSt (σ : Vm) (pc : Nat) (a : Val) (queue : List Val) (ctx : List CtxState) : Vm :=
-  { σ with pc := pc, regs := { σ.regs with a := a }, queue := queue, ctx := ctx }
-
-/-- the copy-back: the queued values are stored into the variables of the current frame, in order -/
-theorem deq_phase (code : Code) : ∀ (vars : List (Nat × Ty × Pos)) (ws : List Val) (off : Nat) (σ : Vm)
-    (tail : List Val) (fr : Frame) (below : List CtxState),
-    CodeAt code off (deqCode vars) → σ.pc = off → σ.queue = ws ++ tail → ws.length = vars.length →
-    σ.ctx = .frame fr :: below →
-    ∃ a, Steps code σ (deqSt σ (off + 3 * vars.length) a tail (.frame (setAllFr fr vars ws) :: below))
-  | [], [], off, σ, tail, fr, below, _, hpc, hq, _, hctx => by
-    subst hpc
-    have ht : tail = σ.queue := by rw [hq]; rfl
-    subst ht
-    refine ⟨σ.regs.a, (Steps.refl σ).cast ?_⟩
-    simp only [setAllFr, ← hctx]
-    rfl
-  | [], _ :: _, _, _, _, _, _, _, _, _, hl, _ => by simp at hl
-  | _ :: _, [], _, _, _, _, _, _, _, _, hl, _ => by simp at hl
-  | (x, t, q) :: vars, w :: ws, off, σ, tail, fr, below, hc, hpc, hq, hl, hctx => by
-    subst hpc
-    simp only [deqCode, List.flatMap_cons] at hc
-    have h0 : code[σ.pc]? = some (CInstr.dequeue, q) := hc.append_left.head
-    have h1 : code[σ.pc + 1]? = some (CInstr.varPath x t, q) := hc.append_left.tail.head
-    have h2 : code[σ.pc + 1 + 1]? = some (CInstr.copyAToVarPath, q) := hc.append_left.tail.tail.head
-    have hq' : σ.queue = w :: (ws ++ tail) := hq
-    let σ1 : Vm := Vm.advance { Vm.setA σ w with queue := ws ++ tail }
-    let σ2 : Vm := Vm.advance { σ1 with paths := (x, t) :: σ1.paths }
-    let σ3 : Vm := Vm.advance { σ2 with ctx := .frame (setVar fr x w) :: below, paths := σ.paths }
-    have s1 : Vm.step code σ = .next σ1 := by simp only [Vm.step, h0, hq']; rfl
-    have s2 : Vm.step code σ1 = .next σ2 := by simp only [Vm.step, σ1, Vm.advance, Vm.setA, h1]; rfl
-    have s3 : Vm.step code σ2 = .next σ3 := by
-      simp only [Vm.step, σ2, σ1, Vm.advance, Vm.setA, h2, hctx, modCur]; rfl
-    have hcr : CodeAt code (σ.pc + 3) (deqCode vars) := hc.append_right
-    obtain ⟨a, st⟩ := deq_phase code vars ws (σ.pc + 3) σ3 tail (setVar fr x w) below hcr rfl rfl
-      (by simp only [List.length_cons] at hl; omega) rfl
-    have e1 : σ.pc + 3 + 3 * vars.length = σ.pc + 3 * ((x, t, q) :: vars).length := by
-      simp only [List.length_cons]; omega
-    rw [e1] at st
-    exact ⟨a, (Steps.cons s1 (Steps.cons s2 (Steps.one s3))).trans st⟩
-
-/-- the frame and the environment after the copy-back are related again, and the environment is typed -/
-theorem rel_setAll (sc : Scope) : ∀ (vars : List (Nat × Ty × Pos)) (ws : List Val) (fr : Frame) (env : List Val),
-    FrameRel sc fr env → Typed sc.slots env → (∀ v ∈ vars, sc.slots[v.1]? = some v.2.1) →
-    ws.map Val.tag = vars.map (·.2.1) →
-    FrameRel sc (setAllFr fr vars ws) (setAll env vars ws) ∧ Typed sc.slots (setAll env vars ws)
-  | [], ws, fr, env, hf, ht, _, _ => by
-    cases ws <;> simp only [setAllFr, setAll] <;> exact ⟨hf, ht⟩
-  | _ :: _, [], _, _, _, _, _, htag => by simp at htag
-  | v :: vars, w :: ws, fr, env, hf, ht, hsl, htag => by
-    simp only [List.map_cons, List.cons.injEq] at htag
-    have hx := hsl v (List.mem_cons_self ..)
-    simp only [setAllFr, setAll]
-    exact rel_setAll sc vars ws _ _ (hf.set hx ht.1 w) (typed_set ht hx htag.1)
-      (fun u hu => hsl u (List.mem_cons_of_mem _ hu)) htag.2
-
-theorem mapM_id_some : ∀ (vs : List Val), (vs.map some).mapM id = some vs
-  | [] => rfl
-  | v :: vs => by
-    simp only [List.map_cons, List.mapM_cons, mapM_id_some vs, id]
-    rfl
-
-/-! ### the reference semantics against the built-in's loop -/
-
-/-- the reference semantics of `READ x1, …, xn` against the built-in's loop over the values it finds in its frame (any
-values that carry the declared types of the variables) -/
-theorem read_ref (P : Program) (p : Pos) (cur : (Nat × Ty × Pos) → Val) :
-    ∀ (vars : List (Nat × Ty × Pos)) (fuel : Nat) (s : St),
-      (∀ v ∈ vars, (cur v).tag = v.2.1) →
-      match Proc.Ref.exec P (fuel + 1) (readSeq p vars) s with
-      | (s', .normal) => ∃ rs, readVars (vars.map cur) s.data s.dataIdx = .inl (.ok (rs, s.dataIdx + vars.length)) ∧
-          rs.length = vars.length ∧ rs.map Val.tag = vars.map (·.2.1) ∧ s'.env = setAll s.env vars rs ∧
-          s'.out = s.out ∧ s'.data = s.data ∧ s'.dataIdx = s.dataIdx + vars.length
-      | (s', .error c q) => s'.out = s.out ∧ q = p ∧
-          ((readVars (vars.map cur) s.data s.dataIdx = .inr () ∧ c = Proc.Ref.codeOutOfData) ∨
-           (∃ e, readVars (vars.map cur) s.data s.dataIdx = .inl (.error e) ∧ c = Proc.Ref.codeOf e))
-      | (_, .inexact) => True
-      | (_, .outOfFuel) => True
-      | (_, .halted) => False
-      | (_, .exited) => False
-      | (_, .illFormed) => False
-  | [], fuel, s, _ => by
-    simp only [readSeq, Proc.Ref.exec]
-    refine ⟨[], ?_⟩
-    simp [readVars, setAll]
-  | (x, t, q) :: rest, fuel, s, hf => by
+/-- the rounds of a READ statement: `readSeq` against the blocks, one unit of fuel per round -/
+theorem reads_correct (code : Code) (P : Program) (p : Pos) (sc : Scope) (fd sd : Nat) (below : List CtxState) :
+    ∀ (vars : List (Nat × Ty × Pos)) (fuel : Nat) (off : Nat) (σ : Vm) (s : St),
+      CodeAt code off (vars.flatMap (readBlock p)) → σ.pc = off → Rel sc [] below s σ →
+      (∀ v ∈ vars, sc.slots[v.1]? = some v.2.1) →
+      StmtPost code sc below fd sd (11 * vars.length) off σ (Proc.Ref.exec P (fuel + 1) (readSeq p vars) s)
+  | [], fuel, off, σ, s, _, hpc, hr, _ => by
+    simp only [readSeq, Proc.Ref.exec, StmtPost]
+    exact ⟨σ, Steps.refl σ, by simp only [List.length_nil, Nat.mul_zero, Nat.add_zero, hpc], hr, SameStacks.refl σ⟩
+  | (x, t, q) :: rest, fuel, off, σ, s, hc, hpc, hr, hw => by
+    simp only [List.flatMap_cons] at hc
     simp only [readSeq, Proc.Ref.exec]
     cases fuel with
-    | zero => simp only [Proc.Ref.exec]
-    | succ fl =>
-      simp only [Proc.Ref.exec]
-      have hcur : (cur (x, t, q)).tag = t := hf (x, t, q) (List.mem_cons_self ..)
-      simp only [List.map_cons, readVars, hcur]
-      cases hd : s.data[s.dataIdx]? with
-      | none => simp
-      | some v =>
+    | zero => simp only [Proc.Ref.exec, StmtPost]
+    | succ f =>
+      have hx : sc.slots[x]? = some t := hw (x, t, q) (List.mem_cons_self ..)
+      have h1 := one_read code P f x t q p sc fd sd off below s σ hc.append_left hpc hr hx
+      generalize Proc.Ref.exec P (f + 1) (Stmt.read x t p) s = ra at h1 ⊢
+      obtain ⟨s1, o1⟩ := ra
+      cases o1 with
+      | normal =>
+        obtain ⟨τ, st, hp, hrel, hss⟩ := h1
+        have hcr : CodeAt code (off + 11) (rest.flatMap (readBlock p)) := hc.append_right
+        have h2 := reads_correct code P p sc fd sd below rest f (off + 11) τ s1 hcr hp hrel
+          (fun v hv => hw v (List.mem_cons_of_mem _ hv))
         simp only
-        cases hc : Num.cast v t with
-        | err e => simp
-        | inexact => simp only
-        | ok w =>
-          simp only
-          have ih := read_ref P p cur rest fl { s.set x w with dataIdx := s.dataIdx + 1 }
-            (fun v hv => hf v (List.mem_cons_of_mem _ hv))
-          generalize hr : Proc.Ref.exec P (fl + 1) (readSeq p rest) { s.set x w with dataIdx := s.dataIdx + 1 } = r
-            at ih ⊢
-          obtain ⟨s2, o2⟩ := r
-          cases o2 with
-          | normal =>
-            simp only [Proc.Ref.St.set] at ih ⊢
-            obtain ⟨rs, h1, h2, h3, h4, h5, h6, h7⟩ := ih
-            refine ⟨w :: rs, ?_, ?_, ?_, ?_, h5, h6, ?_⟩
-            · rw [h1]
-              simp only [List.length_cons]
-              congr 3; omega
-            · simp only [List.length_cons, h2]
-            · simp only [List.map_cons, h3, cast_tag v t w hc]
-            · simp only [setAll]; exact h4
-            · rw [h7]; simp only [List.length_cons]; omega
-          | error c q' =>
-            simp only [Proc.Ref.St.set] at ih ⊢
-            obtain ⟨h1, h2, h3⟩ := ih
-            refine ⟨h1, h2, ?_⟩
-            rcases h3 with ⟨h3, hc'⟩ | ⟨e, h3, hc'⟩
-            · left; rw [h3]; exact ⟨rfl, hc'⟩
-            · right; rw [h3]; exact ⟨e, rfl, hc'⟩
-          | halted => simp only at ih
-          | exited => simp only at ih
-          | illFormed => simp only at ih
-          | inexact => simp only
-          | outOfFuel => simp only
+        exact StmtPost.of_steps st hss (h2.addr (by simp only [List.length_cons]; omega))
+      | exited => exact h1
+      | halted => exact h1
+      | error c q' => exact h1
+      | inexact => trivial
+      | outOfFuel => trivial
+      | illFormed => exact h1
 
 end RbThm.ProcSim.SimRead
 
@@ -260,12 +197,9 @@ namespace RbThm.ProcSim
 open RbModel RbModel.Num RbModel.Proc RbModel.Proc.Compile RbModel.Proc.Vm
 open RbModel.Ast (Pos)
 open RbThm.ProcLen RbThm.ProcSim.SimRead
-open RbThm.C01Sim.SimRead (setAll setAll_length cast_tag typed_set typed_getD_tag)
 
-/-- **READ**.  The built-in converts every DATA item to the type of the value the variable currently holds, which is its
-declared type because the environment is `Typed`; the converted values travel through the return queue back into the
-variables in the order in which the reference semantics assigns them, so a variable that occurs twice is no special
-case. -/
+/-- **READ**: one call of the built-in per variable (`READ a, b` = `READ a : READ b`).  A READ without variables is an
+empty call. -/
 theorem case_read (W : World) (fuel : Nat) (ih : IHle W fuel) (vars : List (Nat × Ty × Pos)) (p : Pos)
     (sc : Scope) (sfx : String) (fd sd off : Nat) (below : List CtxState) (s : St) (σ : Vm)
     (hc : CodeAt W.code off (compileStmt W.lay sfx fd sd off (.read vars p))) (hpc : σ.pc = off)
@@ -274,119 +208,43 @@ theorem case_read (W : World) (fuel : Nat) (ih : IHle W fuel) (vars : List (Nat 
       (Proc.Ref.exec W.P (fuel + 1) (desugar (.read vars p)) s) := by
   rw [compile_read] at hc
   simp only [Wf] at hw
-  subst hpc
-  obtain ⟨fr, hctx, hfr⟩ := hr.ctx
-  have hctx : σ.ctx = .frame fr :: below := hctx
-  -- BeginCollectArguments
-  have h0 : W.code[σ.pc]? = some (CInstr.beginArgs, p) :=
-    hc.append_left.append_left.append_left.append_left.append_left.head
-  let σ1 : Vm := Vm.advance { σ with ctx := .args [] :: σ.ctx }
-  have s1 : Vm.step W.code σ = .next σ1 := by simp only [Vm.step, h0]; rfl
-  -- the arguments
-  have hcp : CodeAt W.code (σ.pc + 1) (pushCode vars) :=
-    hc.append_left.append_left.append_left.append_left.append_right
-  obtain ⟨a, st2⟩ := push_phase W.code vars (σ.pc + 1) σ1 [] fr below hcp rfl
-    (by show CtxState.args [] :: σ.ctx = _; rw [hctx])
-  let cur : (Nat × Ty × Pos) → Val := fun v => getVar fr v.1 v.2.1
-  let σ2 : Vm := pushedSt σ1 (σ.pc + 1 + 3 * vars.length) a (.args (vars.map cur) :: .frame fr :: below)
-  have st2' : Steps W.code σ1 σ2 := st2
-  -- PushStack; BuiltInSub Read
-  have h3 : W.code[σ.pc + 1 + 3 * vars.length]? = some (CInstr.pushStack, p) := by
-    have := hc.append_left.append_left.append_left.append_right.head
-    simp only [List.length_append, List.length_singleton, len_pushCode] at this
-    rw [← this]; congr 1; omega
-  have h4 : W.code[σ.pc + 1 + 3 * vars.length + 1]? = some (CInstr.builtInRead, p) := by
-    have := hc.append_left.append_left.append_left.append_right.tail.head
-    simp only [List.length_append, List.length_singleton, len_pushCode] at this
-    rw [← this]; congr 1; omega
-  let σ3 : Vm := Vm.advance { σ2 with ctx := .frame ((vars.map cur).map some) :: .frame fr :: below, trace := p :: σ.trace }
-  have s3 : Vm.step W.code σ2 = .next σ3 := by simp only [Vm.step, σ2, pushedSt, h3]; rfl
-  have pre : Steps W.code σ σ3 := (Steps.cons s1 st2').trans (Steps.one s3)
-  have hread : Vm.step W.code σ3 =
-      match readVars (vars.map cur) s.data s.dataIdx with
-      | .inr () => .error _root_.RbModel.Ref.codeOutOfData p σ3
-      | .inl (.error e) => .error (Vm.codeOf e) p σ3
-      | .inl (.ok (vs', idx')) =>
-        .next (Vm.advance { σ3 with ctx := .frame (vs'.map some) :: .frame fr :: below, dataIdx := idx' }) := by
-    have h4' : W.code[σ3.pc]? = some (CInstr.builtInRead, p) := h4
-    have hctx3 : σ3.ctx = .frame ((vars.map cur).map some) :: .frame fr :: below := rfl
-    have e : readVars (vars.map cur) σ3.data σ3.dataIdx = readVars (vars.map cur) s.data s.dataIdx := by
-      have e2 : σ3.data = s.data := hr.data
-      have e3 : σ3.dataIdx = s.dataIdx := hr.dataIdx
-      rw [e2, e3]
-    simp only [Vm.step, h4', hctx3, mapM_id_some]
-    rw [e]; rfl
-  have htag : ∀ v ∈ vars, (cur v).tag = v.2.1 := fun v hv => by
-    show (getVar fr v.1 v.2.1).tag = v.2.1
-    rw [hfr.get v.1 v.2.1 (hw v hv)]; exact typed_getD_tag hr.typed (hw v hv) _
-  have href := read_ref W.P p cur vars fuel s htag
-  simp only [desugar, sizeStmt]
-  generalize hrr : Proc.Ref.exec W.P (fuel + 1) (readSeq p vars) s = r at href ⊢
-  obtain ⟨s', o⟩ := r
-  cases o with
-  | halted => exact href.elim
-  | exited => exact href.elim
-  | illFormed => exact href.elim
-  | inexact => trivial
-  | outOfFuel => trivial
-  | error c q =>
-    simp only at href
-    obtain ⟨hout, hq, hcase⟩ := href
-    subst hq
-    simp only [StmtPost]
-    refine ⟨σ3, σ3, pre, ?_, ?_⟩
-    · rcases hcase with ⟨hra, hcd⟩ | ⟨e, hra, hcd⟩
-      · rw [hread, hra, hcd]; rfl
-      · rw [hread, hra, hcd]
-    · rw [hout]; exact hr.out
-  | normal =>
-    simp only at href
-    obtain ⟨rs, hra, hlen, htags, henv, hout, hdata, hidx⟩ := href
-    rw [hra] at hread
-    simp only at hread
-    let σ4 : Vm := Vm.advance { σ3 with ctx := .frame (rs.map some) :: .frame fr :: below,
-                                        dataIdx := s.dataIdx + vars.length }
-    have s4 : Vm.step W.code σ3 = .next σ4 := hread
-    -- the return queue
-    have hce : CodeAt W.code (σ.pc + 1 + 3 * vars.length + 2) (enqCode 0 vars) := by
-      have := hc.append_left.append_left.append_right
-      simp only [List.length_append, List.length_singleton, List.length_cons, List.length_nil, len_pushCode] at this
-      exact this.at (by omega)
-    have st5 := enq_phase W.code vars 0 (σ.pc + 1 + 3 * vars.length + 2) σ4 rs (.frame fr :: below) hce rfl rfl
-      (by omega)
-    have hq4 : σ4.queue = [] := hr.queue
-    have hws : (rs.drop 0).take vars.length = rs := by rw [List.drop_zero, ← hlen, List.take_length]
-    rw [hq4, hws, List.nil_append] at st5
-    let σ5 : Vm := enqSt σ4 (σ.pc + 1 + 3 * vars.length + 2 + vars.length) rs
-    -- PopStack
-    have h6 : W.code[σ.pc + 1 + 3 * vars.length + 2 + vars.length]? = some (CInstr.popStack, p) := by
-      have := hc.append_left.append_right.head
-      simp only [List.length_append, List.length_singleton, List.length_cons, List.length_nil, len_pushCode,
-        len_enqCode] at this
-      rw [← this]; congr 1; omega
-    let σ6 : Vm := Vm.advance { σ5 with ctx := .frame fr :: below, trace := σ.trace }
-    have s6 : Vm.step W.code σ5 = .next σ6 := by simp only [Vm.step, σ5, enqSt, h6]; rfl
-    -- the copy-back
-    have hcd : CodeAt W.code (σ.pc + 1 + 3 * vars.length + 2 + vars.length + 1) (deqCode vars) := by
-      have := hc.append_right
-      simp only [List.length_append, List.length_singleton, List.length_cons, List.length_nil, len_pushCode,
-        len_enqCode] at this
-      exact this.at (by omega)
-    obtain ⟨a7, st7⟩ := deq_phase W.code vars rs _ σ6 [] fr below hcd rfl
-      (by show rs = rs ++ []; rw [List.append_nil]) hlen rfl
-    obtain ⟨hfr', hty'⟩ := rel_setAll sc vars rs fr s.env hfr hr.typed hw htags
-    simp only [StmtPost]
-    refine ⟨_, ((pre.trans (Steps.cons s4 st5)).trans (Steps.one s6)).trans st7, ?_, ?_,
+  cases vars with
+  | nil =>
+    simp only [List.isEmpty_nil, if_true] at hc
+    subst hpc
+    obtain ⟨fr, hctx, hfr⟩ := hr.ctx
+    have hctx : σ.ctx = .frame fr :: below := hctx
+    have h0 : W.code[σ.pc]? = some (CInstr.beginArgs, p) := hc.head
+    have h1 : W.code[σ.pc + 1]? = some (CInstr.pushStack, p) := hc.tail.head
+    have h2 : W.code[σ.pc + 1 + 1]? = some (CInstr.builtInRead, p) := hc.tail.tail.head
+    have h3 : W.code[σ.pc + 1 + 1 + 1]? = some (CInstr.popStack, p) := hc.tail.tail.tail.head
+    let σ1 : Vm := Vm.advance { σ with ctx := .args [] :: .frame fr :: below }
+    let σ2 : Vm := Vm.advance { σ1 with ctx := .frame [] :: .frame fr :: below, trace := p :: σ.trace }
+    let σ3 : Vm := Vm.advance { σ2 with ctx := .frame [] :: .frame fr :: below, dataIdx := σ.dataIdx }
+    let σ4 : Vm := Vm.advance { σ3 with ctx := .frame fr :: below, trace := σ.trace }
+    have s1 : Vm.step W.code σ = .next σ1 := by simp only [Vm.step, h0, hctx]; rfl
+    have s2 : Vm.step W.code σ1 = .next σ2 := by
+      have h1' : W.code[σ1.pc]? = some (CInstr.pushStack, p) := h1
+      have hc1 : σ1.ctx = .args [] :: .frame fr :: below := rfl
+      simp only [Vm.step, h1', hc1]; rfl
+    have s3 : Vm.step W.code σ2 = .next σ3 := by
+      have h2' : W.code[σ2.pc]? = some (CInstr.builtInRead, p) := h2
+      have hc2 : σ2.ctx = .frame [] :: .frame fr :: below := rfl
+      have hm : ([] : Frame).mapM id = some [] := rfl
+      simp only [Vm.step, h2', hc2, hm, readVars]; rfl
+    have s4 : Vm.step W.code σ3 = .next σ4 := by
+      have h3' : W.code[σ3.pc]? = some (CInstr.popStack, p) := h3
+      have hc3 : σ3.ctx = .frame [] :: .frame fr :: below := rfl
+      have ht3 : σ3.trace = p :: σ.trace := rfl
+      simp only [Vm.step, h3', hc3, ht3]; rfl
+    simp only [desugar, readSeq, Proc.Ref.exec, sizeStmt, List.isEmpty_nil, if_true, StmtPost]
+    refine ⟨σ4, Steps.cons s1 (Steps.cons s2 (Steps.cons s3 (Steps.one s4))), rfl, ?_,
       ⟨rfl, rfl, rfl, rfl, rfl, rfl, id⟩⟩
-    · show σ.pc + 1 + 3 * vars.length + 2 + vars.length + 1 + 3 * vars.length = _
-      omega
-    · refine ⟨hr.coll, ⟨setAllFr fr vars rs, rfl, by rw [henv]; exact hfr'⟩, by rw [henv]; exact hty', ?_, ?_, ?_, rfl,
-        hr.funRes⟩
-      · show σ.out = s'.out
-        rw [hout]; exact hr.out
-      · show σ.data = s'.data
-        rw [hdata]; exact hr.data
-      · show s.dataIdx + vars.length = s'.dataIdx
-        rw [hidx]
+    exact hr.same (by show CtxState.frame fr :: below = σ.ctx; rw [hctx]) rfl rfl rfl rfl rfl
+  | cons v rest =>
+    simp only [List.isEmpty_cons, Bool.false_eq_true, if_false] at hc
+    have h := reads_correct W.code W.P p sc fd sd below (v :: rest) fuel off σ s hc hpc hr hw
+    simp only [desugar, sizeStmt, List.isEmpty_cons, Bool.false_eq_true, if_false]
+    exact h
 
 end RbThm.ProcSim
